@@ -50,6 +50,9 @@ class Real:
         self.ev_id = {id(e): i for i, e in enumerate(self.events)}
         for k in self.prog.get('callbacks', ()):
             self.events[k].callbacks.append(lambda e, k=k: self.cb.append((k, env.now)))
+        for k in self.prog.get('defusers', ()):
+            # a callback of the event itself takes care of its failure
+            self.events[k].callbacks.append(lambda e: setattr(e, 'defused', True))
         for spec in self.prog['procs']:
             self.procs[spec['name']] = env.process(self.gen(spec, spec['phase']))
 
@@ -227,6 +230,7 @@ class MEvent:
         self.waiters = []          # (proc, token)
         self.parents = []          # conditions
         self.callbacks = 0
+        self.defuser = False
         self.handled = False
         self.reg_times = []       # dates at which waiters / conditions started to observe this event
 
@@ -266,6 +270,8 @@ class Model:
         self.events = [MEvent(i) for i in range(prog['nev'])]
         for k in prog.get('callbacks', ()):
             self.events[k].callbacks += 1
+        for k in prog.get('defusers', ()):
+            self.events[k].defuser = True
         self.flags = [MEvent() for _ in range(prog.get('nflags', 0))]
         self.procs = {}
         self.cb = []
@@ -565,6 +571,8 @@ class Model:
     def process_event(self, ev):
         for _ in range(ev.callbacks):
             self.cb.append((ev.eid, self.now))
+        if ev.defuser:
+            ev.handled = True      # the callbacks run first, then the failure is looked at
         if ev.state[0] == 'fail' and not ev.handled and self.crash is None:
             self.crash = ev.state[1]
 
